@@ -58,6 +58,10 @@ type task struct {
 	TreeKind string `json:"tree"`
 	KeySeed  string `json:"keyseed"`
 	Ops      []op   `json:"ops"`
+	// mix shared-inspection-name: the inspection names all layouts of the batch use, and whether this task's run
+	// directories contain a file the inspection rules disallow (its verifications must then fail)
+	InspNames []string `json:"inspection_names,omitempty"`
+	Dirty     bool     `json:"dirty_run_dir,omitempty"`
 }
 
 type batch struct {
@@ -107,7 +111,8 @@ var mixes = map[string][]string{
 	// inspections, the error return of every entry point, and the entry points the other mixes do not reach
 	"rare-paths": {"verify-artifacts-malformed", "verify-artifacts-malformed", "in-toto-verify-malformed", "load-unparsable",
 		"error-returns", "failing-inspection", "record-start-stop"},
-	cwdMix: {"verify-with-dir", "record-relative", "in-toto-run-relative"},
+	cwdMix:  {"verify-with-dir", "record-relative", "in-toto-run-relative"},
+	sameMix: {"verify-same-inspection"},
 	"mixed": {"record", "record-nofollow", "record-gitignore", "run-command", "in-toto-run", "in-toto-run-dsse", "sign-verify",
 		"dsse-sign-verify", "dump-load", "dsse-dump-load", "load-key", "verify-artifacts", "substitute", "in-toto-verify",
 		"verify-artifacts-malformed", "error-returns", "record-start-stop", "load-unparsable"},
@@ -115,6 +120,16 @@ var mixes = map[string][]string{
 
 // explicit only (never part of the default list): its sequential phase takes seconds
 const cwdMix = "cwd-relative"
+
+// explicit only: N concurrent InTotoVerifyWithDirectory calls on distinct layouts, keys, link and run directories whose
+// inspections all have the SAME name (RunInspections writes <name>.link into the process working directory), half of the
+// run directories clean (must pass), half with a disallowed extra file (must fail); every call is released by a
+// barrier so that the inspections of all goroutines run, dump and finish together
+const sameMix = "shared-inspection-name"
+
+// opBarrier, when set (concurrent phase of sameMix), makes every goroutine wait until all goroutines of the batch are
+// about to make their i-th call
+var opBarrier func(i int)
 
 var fixedCwd string // the working directory of the harness process, set once by fixCwd
 
@@ -148,6 +163,29 @@ func genTasks(b batch) []task {
 	for k := range ts {
 		tr := r.Fork()
 		t := task{K: k}
+		if b.Mix == sameMix {
+			seed := make([]byte, 32)
+			for i := range seed {
+				seed[i] = byte(tr.Intn(256))
+			}
+			t.KeySeed = hex.EncodeToString(seed)
+			t.InspNames = [][]string{{"untar", "check"}, {"check", "untar"}, {"untar", "check"}, {"check", "verify-signature"}}[b.Seed%4]
+			t.Dirty = k%2 == 1
+			t.TreeKind = "clean-run-dir"
+			if t.Dirty {
+				t.TreeKind = "dirty-run-dir"
+			}
+			delays := r.Intn(1000) // the same for all tasks would align them perfectly; vary a little per task
+			rounds := 5
+			if b.Goroutines >= 16 {
+				rounds = 8
+			}
+			for i := 0; i < rounds; i++ {
+				t.Ops = append(t.Ops, op{Kind: "verify-same-inspection", A: delays + tr.Intn(2), B: tr.Intn(1000)})
+			}
+			ts[k] = t
+			continue
+		}
 		if b.Mix == cwdMix {
 			t.TreeKind = []string{"plain", "file-links", "dir-links"}[tr.Intn(3)]
 			seed := make([]byte, 32)
@@ -692,6 +730,53 @@ func runOp(t task, o op, i int, root string, ks keys) string {
 		script := fmt.Sprintf("cat %s/src/main.c; echo rel-%d", rel, o.A) // runDir "": the command inherits the working directory
 		return strings.ReplaceAll(showMeta(intoto.InTotoRun(fmt.Sprintf("rel-%d", i), "", []string{filepath.Join(rel, "src")}, []string{filepath.Join(rel, "src")},
 			[]string{"sh", "-c", script}, ks.priv, []string{"sha256"}, nil, []string{rel + "/"}, true, true, false)), rel, "<REL>")
+	case "verify-same-inspection":
+		// own key, layout object, link directory and run directory; the inspections carry the names every other
+		// goroutine of the batch uses too. Strict inspection rules: the unpacked file must MATCH the product of the
+		// step, the README is allowed, everything else is disallowed - a dirty run directory must be rejected.
+		content := fmt.Sprintf("package of task %d call %d (%s)\n", t.K, i, t.KeySeed[:8])
+		pkg := fmt.Sprintf("pkg-%d", i)
+		runDir := filepath.Join(root, fmt.Sprintf("rundir-si-%d", i))
+		linkDir := filepath.Join(root, fmt.Sprintf("links-si-%d", i))
+		setup := func() string {
+			must(os.MkdirAll(linkDir, 0o755))
+			writeFile(filepath.Join(runDir, "app.bin"), content)
+			writeFile(filepath.Join(runDir, "README"), "unpacked by task "+strconv.Itoa(t.K))
+			if t.Dirty {
+				writeFile(filepath.Join(runDir, "forbidden.txt"), "not part of the product")
+			}
+			script := fmt.Sprintf("mkdir -p %s && printf '%%s\\n' '%s' > %s/app.bin", pkg, strings.TrimSuffix(content, "\n"), pkg)
+			linkMb, err := intoto.InTotoRun("build", root, []string{filepath.Join(root, "src")}, []string{filepath.Join(root, pkg)},
+				[]string{"sh", "-c", script}, ks.priv, []string{"sha256"}, nil, strip, true, false, false)
+			if err != nil {
+				return "ERR run: " + errClass(err)
+			}
+			if err := linkMb.Dump(filepath.Join(linkDir, fmt.Sprintf(intoto.LinkNameFormat, "build", ks.priv.KeyID))); err != nil {
+				return "ERR dump: " + errClass(err)
+			}
+			return ""
+		}
+		failed := setup()
+		script := fmt.Sprintf("mkdir -p %s && printf '%%s\\n' '%s' > %s/app.bin", pkg, strings.TrimSuffix(content, "\n"), pkg)
+		layout := sampleLayout(t, o, ks)
+		layout.Steps[0].ExpectedMaterials = [][]string{{"ALLOW", "*"}}
+		rules := [][]string{{"MATCH", "app.bin", "IN", runDir, "WITH", "PRODUCTS", "IN", pkg, "FROM", "build"},
+			{"ALLOW", filepath.Join(runDir, "README")}, {"DISALLOW", "*"}}
+		for j, name := range t.InspNames {
+			layout.Inspect = append(layout.Inspect, intoto.Inspection{Type: "inspection",
+				Run:             []string{"sh", "-c", fmt.Sprintf("sleep 0.0%d", 1+(o.A+j)%4)},
+				SupplyChainItem: intoto.SupplyChainItem{Name: name, ExpectedMaterials: rules, ExpectedProducts: rules}})
+		}
+		layoutMb := &intoto.Metablock{Signed: layout}
+		must(layoutMb.Sign(ks.ownPriv))
+		if opBarrier != nil {
+			opBarrier(i)
+		}
+		if failed != "" {
+			return failed
+		}
+		return showMeta(intoto.InTotoVerifyWithDirectory(layoutMb, map[string]intoto.Key{ks.ownPub.KeyID: ks.ownPub}, linkDir,
+			runDir, "", map[string]string{"CMD": script, "PAT": "*"}, nil, true))
 	case "verify-with-dir":
 		// a one-step supply chain inside the task's tree, a layout with 1-2 slow inspections, verified with
 		// InTotoVerifyWithDirectory on the task's own run directory; link directory absolute
@@ -862,6 +947,24 @@ func runBatch(work string, b batch) batchResult {
 		ncalls += len(t.Ops)
 	}
 	conc := make([][]string, len(tasks))
+	if b.Mix == sameMix {
+		var mu sync.Mutex
+		arrived := map[int]int{}
+		gates := map[int]chan struct{}{}
+		opBarrier = func(i int) {
+			mu.Lock()
+			if gates[i] == nil {
+				gates[i] = make(chan struct{})
+			}
+			g := gates[i]
+			arrived[i]++
+			if arrived[i] == len(tasks) {
+				close(g)
+			}
+			mu.Unlock()
+			<-g
+		}
+	}
 	underDeadline(&res, tasks, "concurrent", ncalls, func() {
 		var wg sync.WaitGroup
 		start := make(chan struct{})
@@ -876,6 +979,7 @@ func runBatch(work string, b batch) batchResult {
 		close(start)
 		wg.Wait()
 	})
+	opBarrier = nil
 	// the working directory belongs to the harness: no library call may have moved it
 	var cwdMoved []mismatch
 	if wd, err := os.Getwd(); err != nil || wd != fixedCwd {
@@ -964,7 +1068,7 @@ func main() {
 			mixNames = strings.Split(os.Args[8], ",")
 		} else {
 			for m := range mixes {
-				if m != cwdMix {
+				if m != cwdMix && m != sameMix {
 					mixNames = append(mixNames, m)
 				}
 			}
